@@ -10,6 +10,8 @@ Definition pystr := list Z.
 Definition Dtype_of_string (s : string) : pystr :=
   map (fun a => Z.of_N (N_of_ascii a)) (list_ascii_of_string s).
 
+Definition Dtype_bfloat16 : pystr := Dtype_of_string "bfloat16"%string.
+
 Definition Dtype_str_eqb (a b : pystr) : bool := list_eqb Z.eqb a b.
 
 (* PyTorch's element sizes (torch.empty(0, dtype=d).element_size()); hand-written reference,
